@@ -314,9 +314,11 @@ where
                     return Err(RunError::Transport(e))
                 }
 
-                Selected::Transport(Ok(_))
-                | Selected::Handle(_)
-                | Selected::AbortFunctionCall(_) => {}
+                // The call can no longer be aborted at the broker, but it must stop being reported
+                // as aborted, or this loop would never become pending again.
+                Selected::AbortFunctionCall(serial) => self.function_calls.abort(serial),
+
+                Selected::Transport(Ok(_)) | Selected::Handle(_) => {}
             }
         }
 
